@@ -150,10 +150,16 @@ class _SplitConditionalEffects(ast.NodeTransformer):
 
     def _unroll_filtered_list(self, s):
         """`xs = [E for T in <literal rows> if C]`  ->  `xs = []` + `for T in rows: if C: xs.append(E)`"""
-        if not (isinstance(s, ast.Assign) and len(s.targets) == 1 and isinstance(s.targets[0], ast.Name) and isinstance(s.value, ast.ListComp)
-                and len(s.value.generators) == 1 and s.value.generators[0].ifs and isinstance(s.value.generators[0].iter, (ast.Tuple, ast.List, ast.Name))):
+        val = s.value if isinstance(s, ast.Assign) else None
+        # tuple(<generator>) / list(<generator>) build the same sequence
+        if isinstance(val, ast.Call) and isinstance(val.func, ast.Name) and val.func.id in ("tuple", "list") and len(val.args) == 1 and not val.keywords \
+                and isinstance(val.args[0], (ast.GeneratorExp, ast.ListComp)):
+            val = val.args[0]
+        if not (isinstance(s, ast.Assign) and len(s.targets) == 1 and isinstance(s.targets[0], ast.Name) and isinstance(val, (ast.ListComp, ast.GeneratorExp))
+                and (isinstance(val, ast.ListComp) or val is not s.value)
+                and len(val.generators) == 1 and val.generators[0].ifs and isinstance(val.generators[0].iter, (ast.Tuple, ast.List, ast.Name))):
             return [s]
-        comp, g = s.value, s.value.generators[0]
+        comp, g = val, val.generators[0]
         init = ast.copy_location(ast.Assign(targets=s.targets, value=ast.copy_location(ast.List(elts=[], ctx=ast.Load()), s)), s)
         app = ast.Expr(ast.Call(func=ast.Attribute(value=ast.Name(s.targets[0].id, ast.Load()), attr="append", ctx=ast.Load()), args=[comp.elt], keywords=[]))
         body = [app]
